@@ -124,6 +124,8 @@ type mach struct {
 	prog       *ssa.Program          // program of the code under evaluation when it is not the repository's (self-test)
 	depth      int
 	nsym       int
+	// mapOrder: the order every `range` over a map follows (Go fixes none): 0 insertion order, 1 reversed, 2 rotated by one
+	mapOrder int
 	// intercept is asked before any statically resolved call (module or not): handled=true → its result is used
 	intercept func(m *mach, fn *ssa.Function, args []mv) (mv, bool)
 	// external gives the meaning of a function the machine does not execute (outside the module or without body)
@@ -1840,7 +1842,16 @@ func (m *mach) eval(fr *mframe, v ssa.Value) mv {
 			if s == nil {
 				return &mIter{m: &mMap{}}
 			}
-			return &mIter{m: s, keys: append([]string{}, s.keys...)}
+			keys := append([]string{}, s.keys...)
+			switch {
+			case m.mapOrder == 1:
+				for l, r := 0, len(keys)-1; l < r; l, r = l+1, r-1 {
+					keys[l], keys[r] = keys[r], keys[l]
+				}
+			case m.mapOrder == 2 && len(keys) > 1:
+				keys = append(keys[1:], keys[0])
+			}
+			return &mIter{m: s, keys: keys}
 		case mNilT:
 			return &mIter{m: &mMap{}}
 		}
